@@ -223,7 +223,7 @@ def run(ctx: Context) -> None:
         ctx.check('R09.4', ok, "kept = requested variables + geometry inventory + depth coordinates + time coordinate", sv, keep[0] if keep else sv.node)
         drops = [c for c in method_calls(sv, 'drop_vars')]
         ok = (len(drops) == 1 and norm_text(drops[0].func.value) == 'self.dataset' and norm_text(drops[0].args[0]) == 'all_vars - keep_var_names'
-              and any(isinstance(n, ast.Assign) and norm_text(n) == 'all_vars = set(self.dataset.variables.keys())' for n in sv.body)
+              and any(isinstance(n, ast.Assign) and norm_text(n) == 'all_vars = set(self.dataset.variables)' for n in sv.body)
               and all(sflow.resolve(r.value) is drops[0] for r in sv.returns()))
         ctx.check('R09.4', ok, "exactly the complement (over all variables) is dropped", sv, drops[0] if drops else sv.node)
 
